@@ -649,15 +649,17 @@ func OneShot(bin string, script string, timeoutS int) (Result, string) {
 	cmd.Stdin = strings.NewReader(script)
 	out, _ := cmd.CombinedOutput()
 	o := string(out)
-	if strings.Contains(o, "(error") {
-		return Unknown, o
-	}
+	// the verdict is the first sat/unsat line; an error line BEFORE it makes the run inconclusive
+	// (an error after "unsat" is just the get-value that has no model to read)
 	for _, l := range strings.Split(o, "\n") {
-		switch strings.TrimSpace(l) {
-		case "sat":
+		t := strings.TrimSpace(l)
+		switch {
+		case t == "sat":
 			return Sat, o
-		case "unsat":
+		case t == "unsat":
 			return Unsat, o
+		case strings.Contains(t, "(error"):
+			return Unknown, o
 		}
 	}
 	return Unknown, o
